@@ -1188,8 +1188,10 @@ tp_shutdown_wait(tp_p tp) {
 			break;
 		}
 	}
-	/* Fallback code, normally not used. */
-	while (0 != err_cnt && 0 != tp_thread_count_get(tp)) {
+	/* Threads that could not be joined and the attached first thread:
+	 * wait until they have marked themself as stopped. */
+	(void)err_cnt;
+	while (0 != tp_thread_count_get(tp)) {
 		nanosleep(&rqts, NULL); /* Ignore early wakeup and errors. */
 	}
 
@@ -1259,6 +1261,13 @@ tp_threads_create(tp_p tp, const int skip_first) {
 		    0 != tpt_pt_id_is_set(tpt))
 			continue; /* Already started / attached / not joined yet. */
 		tpt->state = TP_THREAD_STATE_STARTING;
+		/* tp_shutdown() either sees STARTING and sends the stop
+		 * message, or it is already visible here. */
+		__atomic_thread_fence(__ATOMIC_SEQ_CST);
+		if (0 != tp->shutdown) {
+			tpt->state = TP_THREAD_STATE_STOP;
+			return (EBUSY);
+		}
 		if (0 == pthread_create_eagain(&tpt->pt_id, NULL,
 		    tp_thread_proc, tpt)) {
 		} else {
@@ -1284,10 +1293,16 @@ tp_thread_attach_first(tp_p tp) {
 	LCB_VERIF_POINT(LCB_VP_START_TEST_TO_STATE);
 
 	tpt->state = TP_THREAD_STATE_STARTING;
-	tpt->pt_id = pthread_self();
+	/* tp_shutdown() either sees STARTING and sends the stop message,
+	 * or it is already visible here. */
+	__atomic_thread_fence(__ATOMIC_SEQ_CST);
+	if (0 != tp->shutdown) {
+		tpt->state = TP_THREAD_STATE_STOP;
+		return (EBUSY);
+	}
+	/* pt_id stays unset: this thread is not ours to join. */
 
 	tp_thread_proc(tpt);
-	memset(&tpt->pt_id, 0x00, sizeof(pthread_t)); /* Not joinable. */
 
 	return (0);
 }
